@@ -26,6 +26,7 @@ def run(prog: Program, rep: Report):
     rep.attempt(lambda: counter_reset_per_call(prog, rep, pf, "C02.R6"))
     rep.attempt(lambda: feeder_early_exits(prog, rep, pf, "C02.R7"))
     rep.attempt(lambda: r8_context_covers_iteration(prog, rep, pf))
+    rep.attempt(lambda: r12_stop_orders(prog, rep, pf))
     # the completion test `sending or finished < sent` ends exactly when the counter equals the number of chunks put: the feeder's
     # publication order and send accounting (C01.R2/R3) are necessary for termination too
     from .c01 import r1_raised_before_start, r2_r3_feeder
@@ -421,6 +422,50 @@ def _drained_counterexample(conds, ev_path, bounds, fixed_bound=None, flow=None)
                     extra = "".join(f", `{k}` being {v}" for k, v in fr.items())
                     return (f"with bound {b}, len(buffer) = 0 and the event clear{extra}, the guard `{src(t)}` is {got}")
     return ""
+
+
+def r12_stop_orders(prog, rep: Report, pf: PoolFacts):
+    """leaving the pool context terminates: the stop orders are not waited for longer than somebody can read them"""
+    from .poolfam import stop_order_delivery
+    rep.rule("C02.R12", "the pool context can be left: the pool's __exit__ does not put its stop orders with an unbounded blocking put "
+             "when the work queue can be bounded and workers can finish on their own (a worker that used up its chunk quota at the "
+             "very end of the last call is not replaced any more and reads no stop order); the accepted form counts down from "
+             "len(self.procs) with bounded puts and gives up only when every worker has finished", floor=1)
+    f = prog.method(pf.pool, "__exit__")
+    rep.fn(f)
+    kind, what = stop_order_delivery(prog, pf, f)
+    # (i) can the work queue be bounded?  the constructor builds it with a size argument on some path
+    init = prog.resolve(pf.pool, "__init__")
+    bounded = False
+    if init is not None:
+        for t_, v_, _st in iter_stores(init.node):
+            d = dotted(t_)
+            if d and len(d) == 2 and d[0] == init.self_name and d[1] == pf.work_q and v_ is not None:
+                for c in ast.walk(v_):
+                    if isinstance(c, ast.Call) and isinstance(c.func, ast.Attribute) and c.func.attr == "Queue" and (c.args or c.keywords):
+                        bounded = True
+    # (ii) can a worker finish without having read a stop order?  its work loop is guarded by a quota (and it announces itself on
+    # the replace queue)
+    wrun = prog.method(pf.worker, "run")
+    retires = any(isinstance(n, ast.While) and not (isinstance(n.test, ast.Constant) and n.test.value is True)
+                  and any(isinstance(c, ast.Call) and queue_call(c) and queue_call(c)[0] == "get" for c in ast.walk(n))
+                  for n in walk_own(wrun.node)) or \
+        any(isinstance(c, ast.Call) and queue_call(c) and queue_call(c)[0] == "put" and pf.qid(c.func.value, wrun, pf.worker) == pf.replace_q
+            for c in calls_in(wrun.node))
+    if kind == "bounded":
+        rep.ok("C02.R12", f, "stop-orders", "count-down from len(self.procs), every put bounded, given up only when every worker has finished")
+    elif kind == "plain" and bounded and retires:
+        rep.viol("C02.R12", f, "stop-orders", f"__exit__ puts one stop order per element of self.procs with a blocking put, the work queue "
+                 f"self.{pf.work_q} can be bounded and a worker can finish without reading a stop order (chunk quota): when such workers "
+                 "are still listed, the orders that do not fit into the queue are waited for forever",
+                 scenario="FactoryFunctorPool(2, factory, work_queue_maxsize=1), max_chunks_per_worker=1, imap over two chunks: both "
+                          "workers retire on the last chunks, their replacement requests arrive after the replace thread was stopped, "
+                          "__exit__ blocks in the second put(None)", line=what.lineno)
+    elif kind == "plain":
+        rep.ok("C02.R12", f, "stop-orders", "blocking puts, but " + ("the work queue is never bounded" if not bounded else
+                                                                     "no worker finishes without reading a stop order"))
+    else:
+        rep.unrec("C02.R12", f, "stop-orders", str(what))
 
 
 def _without_mirror_flags(f: Func, events) -> Func:
